@@ -39,7 +39,11 @@ META = {
                "non-query, send-twice} over a persistent or per-command connection, every transmission with its "
                "own symbolic status (0/1/255) and value",
                "<= 2 callers, one command each; delivery order of their reports symbolic",
-               "one stale / duplicate report"],
+               "one stale / duplicate report",
+               "Tridonic: a send abandoned (cancelled) after its frame was written, the next send started at "
+               "once, 0..2 late reports of the first delivered before the second's own",
+               "daliserver per-command connections: a pushed bus-traffic frame may arrive in the same segment "
+               "as the reply of the first two transmissions (stream socket: recv(n) returns at most n bytes)"],
     "stubs": ["fake os / transport (harness environment)", "struct format interpreter in symbolic mode",
               "SymKeyDict for tridonic._outstanding in symbolic mode"],
     "outside": ["3 or more concurrent callers", "a surplus transmit-echo report for the command in flight "
